@@ -182,6 +182,58 @@ example : sendSite (some 77) [⟨[58, 115, 116, 97, 116, 117, 115], [50, 48, 48]
 example : sendSite none [⟨[58, 115, 116, 97, 116, 117, 115], [50, 48, 48]⟩] = .written [0, 0, 0xd9] := by
   decide +kernel
 
+/-- Sending a request that had to wait.  `send_request` is the one send site that can be suspended
+    before its comparison (`poll_open_bidi` pending while the peer's stream limit is exhausted).
+    Whatever the peer's SETTINGS cell held when the call was made (`atCall`), the request is
+    refused exactly when its RFC 9114 size exceeds the limit in force when the stream has been
+    opened and the request is about to be written (`atOpen`: the advertised value once the SETTINGS
+    have been applied, the protocol default before), and is written otherwise.  In particular a
+    call made under the protocol default whose stream opens after the peer advertised a smaller
+    limit does not send an oversized request. -/
+theorem C10_pending_request_uses_limit_at_send (fs : List Field) (atCall atOpen : Option Nat)
+    (block : List Nat) (size : Nat) (h : encodeStateless? fs = some (block, size)) :
+    (Spec.Qpack.size (pairs fs) > peerLimit atOpen ↔
+      sendRequestSite atCall atOpen fs = .refused (Spec.Qpack.size (pairs fs)) (peerLimit atOpen)) ∧
+    (Spec.Qpack.size (pairs fs) ≤ peerLimit atOpen ↔ sendRequestSite atCall atOpen fs = .written block) ∧
+    (∀ v, atCall = none → atOpen = some v → v < Spec.Qpack.size (pairs fs) →
+      sendRequestSite atCall atOpen fs = .refused (Spec.Qpack.size (pairs fs)) v) := by
+  obtain ⟨_, _, hv, hr, hw⟩ := C10_send_exact fs atOpen block size h
+  refine ⟨hr, hw, ?_⟩
+  intro v _ ho hlt
+  subst ho
+  have := hr.mp (by rw [hv]; exact hlt)
+  rw [hv] at this
+  exact this
+
+-- GET https://a/ (167): called under the default, the peer's limit 100 arrives while the call waits
+-- for stream credit: refused (167, 100); with limit 167 it is written
+example : sendRequestSite none (some 100)
+    [⟨[58, 109, 101, 116, 104, 111, 100], [71, 69, 84]⟩, ⟨[58, 115, 99, 104, 101, 109, 101], [104, 116, 116, 112, 115]⟩,
+     ⟨[58, 97, 117, 116, 104, 111, 114, 105, 116, 121], [97]⟩, ⟨[58, 112, 97, 116, 104], [47]⟩] = .refused 167 100 := by
+  decide +kernel
+example : sendRequestSite none (some 167)
+    [⟨[58, 109, 101, 116, 104, 111, 100], [71, 69, 84]⟩, ⟨[58, 115, 99, 104, 101, 109, 101], [104, 116, 116, 112, 115]⟩,
+     ⟨[58, 97, 117, 116, 104, 111, 114, 105, 116, 121], [97]⟩, ⟨[58, 112, 97, 116, 104], [47]⟩] =
+    .written [0, 0, 0xd1, 0xd7, 0x50, 0x81, 0x1f, 0xc1] := by
+  decide +kernel
+
+/-- `split`.  The receive half of a split request stream enforces the endpoint's configured maximum
+    unchanged — every receive site answers on it exactly as on the unsplit stream, so
+    `C10_recv_exact` and `C10_outcomes` carry over — and the value the send half carries (`0`) is
+    not consulted by any send site: what the send half may send is decided by `sendSite` from the
+    shared settings cell alone (`C10_send_exact`). -/
+theorem C10_split_keeps_receive_limit (mfs : Nat) :
+    (splitLimits mfs).2 = mfs ∧ (splitLimits mfs).1 = 0 ∧
+    ∀ site block, recvSite site (splitLimits mfs).2 block = recvSite site mfs block := by
+  refine ⟨rfl, rfl, fun _ _ => rfl⟩
+
+-- trailers `x-t: aa` (size 37) on the receive half: accepted at 37, refused at 36 (not at 0 < 37 only)
+example : recvSite .serverTrailers (splitLimits 37).2 [0, 0, 0x2b, 0xf2, 0xb2, 0x7f, 0x82, 0x18, 0xff] =
+    .fields [⟨[120, 45, 116], [97, 97]⟩] ∧
+    recvSite .clientTrailers (splitLimits 36).2 [0, 0, 0x2b, 0xf2, 0xb2, 0x7f, 0x82, 0x18, 0xff] =
+    .tooBig 37 36 (some 268) := by
+  decide +kernel
+
 /-- Outcomes over the limit.  Let `decode_stateless` answer `HeaderTooLong(n)` under the receiver's
     configured maximum.  At the server's request head the 431 response (one field `:status: 431`,
     size 42, block `00 00 5f 09 83 69 90 ff`) is attempted: when 42 fits the client's limit it is
